@@ -1,114 +1,198 @@
 /* C07 — parallel reading is independent of thread count and scheduling (engine E2, thread-modular).
- * The harness is compiled with clang -fopenmp; the libomp entry points are modelled (symx/models.py): one worker executes
- * the parallel region, loop iterations are handed out in EVERY order (fork), and at every fread on the shared FILE* that is
- * not inside a critical section another worker's seek may have moved the stream (one interference per path).
- * MODE 1: batch reader over a 2-column, 2-page file in stdio mode: for every iteration order and every interference the
- *         batches equal the single-threaded result or the call reports an error.
- * MODE 2: same in buffer / mmap mode (no shared stream; iteration order only), and num_threads variations.
- * MODE 3: lazy initialisation: first use from a state in which "another thread" is anywhere inside the initialiser. */
-#include "pq_common.h"
+ * The harness is compiled with clang -fopenmp; the libomp entry points are modelled (symx/models.py).
+ * Every obligation first runs the batch reader SINGLE-THREADED (num_threads 1, no scheduling model) over the file and records every
+ * carquet_batch_reader_next call: status, batch shape, null flags, values.  Then a second reader on the same file runs with the
+ * configured num_threads under a scheduling model, and every call must return the recorded status and the recorded batch.
+ * VP_MODEL 1: one worker executes the parallel regions, the iterations (= projected columns) of both OpenMP loops are handed out in
+ *             EVERY order (symx_omp_permute; loops of 2..3 iterations), and at every fread on the shared FILE* that is not inside a
+ *             critical section another worker's seek may have moved the stream (symx_interfere; one interference per path).
+ * VP_MODEL 2: two modelled workers with dynamic hand-out of iterations, preemption at iteration boundaries and before accesses to
+ *             bytes on which two iterations conflict (symx_omp_threads(2); at most one preemption per parallel region).
+ * VP_MODEL 3: two independent readers on the same file, their carquet_batch_reader_next calls interleaved in every order
+ *             (call granularity): each returns what it returns when used alone.
+ * Table shapes come from c18_tables.h (VP_SPEC columns, VP_ROWS rows in VP_NRG row groups, VP_BATCH rows per page). */
+#include "c18_tables.h"
 
-#define N 6
-#define BATCHROWS 3
-#define PATH "/mem/t.parquet"
 #ifndef CODEC
 #define CODEC CARQUET_COMPRESSION_UNCOMPRESSED
 #endif
+#ifndef VP_SPEC
+#define VP_SPEC "IL"
+#endif
+#ifndef VP_ROWS
+#define VP_ROWS 6
+#endif
+#ifndef VP_NRG
+#define VP_NRG 1
+#endif
+#ifndef VP_BATCH
+#define VP_BATCH 3
+#endif
+#ifndef VP_FLAVOUR
+#define VP_FLAVOUR 0
+#endif
+#ifndef VP_OPEN
+#define VP_OPEN 1
+#endif
+#ifndef VP_BS
+#define VP_BS 3
+#endif
+#ifndef VP_PROJ
+#define VP_PROJ 0
+#endif
+#ifndef VP_THREADS
+#define VP_THREADS 0               /* 0: symx_choice over num_threads 1..4 */
+#endif
+#ifndef VP_MODEL
+#define VP_MODEL 1
+#endif
+#define PATH "/mem/t.parquet"
+#define FILECAP 8192
+#define MAXCALLS 14
 
 static pq_schema_t S; static pq_column_t C[PQ_MAXCOLS];
-#ifdef NULLABLE
-static const int16_t DEFA[N] = {1, 0, 1, 1, 1, 0};      /* the two columns have nulls at DIFFERENT rows */
-static const int16_t DEFB[N] = {0, 1, 1, 0, 1, 1};
-#endif
-static void table(void) {
-    memset(&S, 0, sizeof S); memset(C, 0, sizeof C);
-    S.ncols = 2;
-    S.name[0] = "a"; S.type[0] = CARQUET_PHYSICAL_INT32; S.rep[0] = CARQUET_REPETITION_REQUIRED;
-    S.name[1] = "b"; S.type[1] = CARQUET_PHYSICAL_INT64; S.rep[1] = CARQUET_REPETITION_REQUIRED;
-#ifdef NULLABLE
-    S.rep[0] = S.rep[1] = CARQUET_REPETITION_OPTIONAL;
-    int na = 0, nb = 0;
-    for (int i = 0; i < N; i++) {
-        C[0].def[i] = DEFA[i]; C[1].def[i] = DEFB[i];
-        if (DEFA[i]) { int32_t v = 100 + i; memcpy(C[0].vals + 4 * na++, &v, 4); }
-        if (DEFB[i]) { int64_t w = 7000 + i; memcpy(C[1].vals + 8 * nb++, &w, 8); }
-    }
-#else
-    for (int i = 0; i < N; i++) { int32_t v = 100 + i; memcpy(C[0].vals + 4 * i, &v, 4); int64_t w = 7000 + i; memcpy(C[1].vals + 8 * i, &w, 8); }
-#endif
-    C[0].nrows = C[1].nrows = N;
-}
-static uint8_t filebuf[4096]; static size_t filelen;
+static uint8_t filebuf[FILECAP]; static size_t filelen;
+static int proj_cols[PQ_MAXCOLS], proj_n; static const char* proj_names[PQ_MAXCOLS]; static int32_t proj_idx[PQ_MAXCOLS];
 
-void harness(void) {
-    table();
-    carquet_writer_options_t wo; carquet_writer_options_init(&wo);
-    wo.compression = CODEC; wo.page_size = 1;
-    int rg[1] = { N }; pq_wstat_t ws;
-    symx_assume(pq_write(PATH, &S, C, rg, 1, BATCHROWS, &wo, &ws) == 0);
-    filelen = symx_file_get(PATH, filebuf, sizeof filebuf);
-    symx_assume(filelen != (size_t)-1);
+/* one carquet_batch_reader_next call */
+typedef struct { int status; int has_batch; int nrows; int ncols; int nv[PQ_MAXCOLS]; uint32_t nulls[PQ_MAXCOLS]; int nbytes[PQ_MAXCOLS];
+                 uint8_t vals[PQ_MAXCOLS][PQ_MAXROWS * 8]; int32_t balen[PQ_MAXCOLS][PQ_MAXROWS]; } call_t;
+static call_t REF[MAXCALLS]; static int nref;
+
+static carquet_reader_t* open_reader(void) {
     carquet_error_t err; memset(&err, 0, sizeof err);
     carquet_reader_options_t ro; carquet_reader_options_init(&ro);
-#if OPENMODE == 0
-    carquet_reader_t* r = carquet_reader_open_buffer(filebuf, filelen, &ro, &err);
+#if VP_OPEN == 0
+    return carquet_reader_open_buffer(filebuf, filelen, &ro, &err);
 #else
-    ro.use_mmap = (OPENMODE == 2);
-    carquet_reader_t* r = carquet_reader_open(PATH, &ro, &err);
+    ro.use_mmap = (VP_OPEN == 2);
+    return carquet_reader_open(PATH, &ro, &err);
 #endif
-    symx_assume(r != NULL);
+}
+static carquet_batch_reader_t* make_batch_reader(carquet_reader_t* r, int threads) {
+    carquet_error_t err; memset(&err, 0, sizeof err);
     carquet_batch_reader_config_t bc; carquet_batch_reader_config_init(&bc);
-    bc.batch_size = BATCHROWS;
-#ifdef THREADS
-    bc.num_threads = THREADS;
-#else
-    bc.num_threads = 1 + symx_choice(3, "num_threads-1");
+    bc.batch_size = VP_BS; bc.num_threads = threads;
+#if VP_PROJ == 1
+    bc.column_indices = proj_idx; bc.num_columns = proj_n;
+#elif VP_PROJ == 2
+    bc.column_names = proj_names; bc.num_column_names = proj_n;
 #endif
-    carquet_batch_reader_t* br = carquet_batch_reader_create(r, &bc, &err);
-    symx_assume(br != NULL);
-#ifdef THREADS
-    symx_omp_threads(THREADS);       /* modelled workers with preemption at conflicting accesses */
+    return carquet_batch_reader_create(r, &bc, &err);
+}
+
+/* performs one next() call and records it; returns 0 when the reader is finished (no batch) */
+static int one_call(carquet_batch_reader_t* br, call_t* o) {
+    memset(o, 0, sizeof *o);
+    carquet_row_batch_t* b = NULL;
+    o->status = (int)carquet_batch_reader_next(br, &b);
+    o->has_batch = b != NULL;
+    if (!b) return 0;
+    o->nrows = (int)carquet_row_batch_num_rows(b); o->ncols = carquet_row_batch_num_columns(b);
+    for (int k = 0; k < o->ncols && k < PQ_MAXCOLS; k++) {
+        const void* data = NULL; const uint8_t* nulls = NULL; int64_t nv = -1;
+        if (carquet_row_batch_column(b, k, &data, &nulls, &nv) != CARQUET_OK || nv < 0 || nv > PQ_MAXROWS) { o->nv[k] = -1; continue; }
+        o->nv[k] = (int)nv;
+        int c = proj_cols[k], nn = 0;
+        for (int i = 0; i < nv; i++) { int isnull = nulls ? (nulls[i / 8] >> (i % 8)) & 1 : 0; if (isnull) o->nulls[k] |= 1u << i; else nn++; }
+        if (nn > 0 && !data) { o->nv[k] = -2; continue; }
+        if (S.type[c] == CARQUET_PHYSICAL_BYTE_ARRAY) {
+            const carquet_byte_array_t* ba = (const carquet_byte_array_t*)data;
+            for (int i = 0; i < nn; i++) { o->balen[k][i] = ba[i].length; for (int j = 0; j < ba[i].length && o->nbytes[k] < PQ_MAXROWS * 8; j++) o->vals[k][o->nbytes[k]++] = ba[i].data[j]; }
+        } else if (nn > 0) {
+            size_t esz = pq_type_size(S.type[c], S.type_len[c]);
+            memcpy(o->vals[k], data, esz * (size_t)nn); o->nbytes[k] = (int)(esz * (size_t)nn);
+        }
+    }
+    carquet_row_batch_free(b);
+    return o->status == CARQUET_OK;
+}
+
+static void same_call(const call_t* got, const call_t* ref) {
+    SYMX_ASSERT(got->status == ref->status, "same status code as single-threaded");
+    SYMX_ASSERT(got->has_batch == ref->has_batch, "a batch is delivered exactly when the single-threaded run delivers one");
+    SYMX_ASSERT(got->nrows == ref->nrows && got->ncols == ref->ncols, "same batch boundaries as single-threaded");
+    for (int k = 0; k < got->ncols && k < PQ_MAXCOLS; k++) {
+        SYMX_ASSERT(got->nv[k] == ref->nv[k], "every column of the batch has the rows it has single-threaded");
+        SYMX_ASSERT(got->nulls[k] == ref->nulls[k], "null bitmap of every column equals the single-threaded one");
+        SYMX_ASSERT(got->nbytes[k] == ref->nbytes[k] && memcmp(got->balen[k], ref->balen[k], sizeof got->balen[k]) == 0 && memcmp(got->vals[k], ref->vals[k], sizeof got->vals[k]) == 0,
+                    "same values as single-threaded");
+    }
+}
+
+void harness(void) {
+    int nc = vt_table(&S, C, VP_SPEC, VP_ROWS, VP_FLAVOUR);
+    SYMX_ASSERT(nc > 0, "harness: bad table spec");
+    carquet_writer_options_t wo; carquet_writer_options_init(&wo);
+    wo.compression = CODEC; wo.page_size = 1;
+    int rg[4]; vt_split(VP_ROWS, VP_NRG, rg);
+    pq_wstat_t ws; FILE* fp = NULL;
+    SYMX_ASSERT(vt_write(PATH, 0, &S, C, rg, VP_NRG, VP_BATCH, &wo, &ws, &fp) == 0, "harness precondition: the table is written");
+    filelen = symx_file_get(PATH, filebuf, sizeof filebuf);
+    SYMX_ASSERT(filelen != (size_t)-1, "harness precondition: the written file exists");
+    proj_n = 0;
+#if VP_PROJ == 0
+    for (int c = 0; c < nc; c++) proj_cols[proj_n++] = c;
 #else
+    proj_cols[proj_n++] = nc - 1; if (nc > 2) proj_cols[proj_n++] = 1; if (nc > 1) proj_cols[proj_n++] = 0;     /* reversed, without column 2.. of wider tables */
+#endif
+    for (int k = 0; k < proj_n; k++) { proj_idx[k] = proj_cols[k]; proj_names[k] = S.name[proj_cols[k]]; }
+
+    /* ---- single-threaded reference run */
+    carquet_reader_t* r0 = open_reader();
+    SYMX_ASSERT(r0 != NULL, "harness precondition: the file opens");
+    carquet_batch_reader_t* br0 = make_batch_reader(r0, 1);
+    SYMX_ASSERT(br0 != NULL, "harness precondition: the batch reader is created");
+    nref = 0;
+    int rows0 = 0;
+    while (nref < MAXCALLS) { int more = one_call(br0, &REF[nref]); rows0 += REF[nref].nrows; nref++; if (!more) break; }
+    carquet_batch_reader_free(br0);
+    carquet_reader_close(r0);
+    SYMX_ASSERT(nref < MAXCALLS && REF[nref - 1].status == CARQUET_ERROR_END_OF_DATA && rows0 == VP_ROWS, "harness precondition: the single-threaded run delivers all rows and ends with END_OF_DATA");
+    symx_observe_int((uint64_t)nref, "single-threaded calls");
+
+#if VP_MODEL == 3
+    /* ---- two independent readers, calls interleaved in every order */
+    carquet_reader_t* ra = open_reader(); carquet_reader_t* rb = open_reader();
+    SYMX_ASSERT(ra != NULL && rb != NULL, "both readers open");
+    carquet_batch_reader_t* ba_ = make_batch_reader(ra, VP_THREADS ? VP_THREADS : 1); carquet_batch_reader_t* bb_ = make_batch_reader(rb, 1);
+    SYMX_ASSERT(ba_ != NULL && bb_ != NULL, "both batch readers are created");
+    int ia = 0, ib = 0; static call_t got;
+    while (ia < nref || ib < nref) {
+        int who = (ia < nref && ib < nref) ? symx_choice(2, "which reader advances") : (ia < nref ? 0 : 1);
+        if (who == 0) { one_call(ba_, &got); same_call(&got, &REF[ia]); ia++; }
+        else { one_call(bb_, &got); same_call(&got, &REF[ib]); ib++; }
+    }
+    carquet_batch_reader_free(ba_); carquet_batch_reader_free(bb_);
+    carquet_reader_close(ra); carquet_reader_close(rb);
+#else
+    /* ---- the run under the scheduling model */
+  #if VP_THREADS
+    int threads = VP_THREADS;
+  #else
+    int threads = 1 + symx_choice(4, "num_threads-1");
+  #endif
+    carquet_reader_t* r = open_reader();
+    SYMX_ASSERT(r != NULL, "the file opens a second time");
+    carquet_batch_reader_t* br = make_batch_reader(r, threads);
+    SYMX_ASSERT(br != NULL, "the batch reader is created");
+  #if VP_MODEL == 2
+    symx_omp_threads(2);             /* modelled workers with preemption at conflicting accesses */
+  #else
     symx_omp_permute(1);
-#endif
-    symx_interfere(1);
-    int pos = 0;
-    for (int it = 0; it < 3; it++) {
-        carquet_row_batch_t* b = NULL;
-        carquet_status_t st = carquet_batch_reader_next(br, &b);
-        if (st != CARQUET_OK || !b) {
-            /* an error status is an acceptable outcome under interference only; single-threaded it must be end-of-data after all rows */
-            if (!b && pos == N) break;
-            SYMX_ASSERT(st != CARQUET_OK, "a NULL batch comes with a non-OK status");
-            break;
-        }
-        int64_t rows = carquet_row_batch_num_rows(b);
-        SYMX_ASSERT(rows == (N - pos < BATCHROWS ? N - pos : BATCHROWS), "same batch boundaries as single-threaded");
-        for (int c = 0; c < 2; c++) {
-            const void* data; const uint8_t* nulls; int64_t nv;
-            SYMX_ASSERT(carquet_row_batch_column(b, c, &data, &nulls, &nv) == CARQUET_OK && nv == rows, "all columns of a batch have the same rows");
-#ifdef NULLABLE
-            int k = 0;
-            for (int i = 0; i < rows; i++) {
-                int present = c == 0 ? DEFA[pos + i] : DEFB[pos + i];
-                int bit = nulls ? (nulls[i / 8] >> (i % 8)) & 1 : 0;
-                SYMX_ASSERT(bit == !present, "null bitmap of every column equals the single-threaded one (bit set = null)");
-                if (!present) continue;
-                if (c == 0) { int32_t v; memcpy(&v, (const uint8_t*)data + 4 * k, 4); SYMX_ASSERT(v == 100 + pos + i, "column a: same values as single-threaded"); }
-                else { int64_t w; memcpy(&w, (const uint8_t*)data + 8 * k, 8); SYMX_ASSERT(w == 7000 + pos + i, "column b: same values as single-threaded"); }
-                k++;
-            }
-#else
-            for (int i = 0; i < rows; i++) {
-                if (c == 0) { int32_t v; memcpy(&v, (const uint8_t*)data + 4 * i, 4); SYMX_ASSERT(v == 100 + pos + i, "column a: same values as single-threaded"); }
-                else { int64_t w; memcpy(&w, (const uint8_t*)data + 8 * i, 8); SYMX_ASSERT(w == 7000 + pos + i, "column b: same values as single-threaded"); }
-            }
-#endif
-        }
-        pos += (int)rows;
-        carquet_row_batch_free(b);
+  #endif
+    if (threads >= 2) symx_interfere(1);
+    static call_t got;
+    for (int i = 0; i < nref; i++) {
+        int more = one_call(br, &got);
+        same_call(&got, &REF[i]);
+        if (!more) break;
     }
     symx_interfere(0);
+    symx_omp_permute(0);
+    symx_omp_threads(0);
     carquet_batch_reader_free(br);
     carquet_reader_close(r);
+#endif
+    symx_check_leaks();
 }
